@@ -31,7 +31,11 @@ META = {
                   "element order; C02_class: highest non-empty dimension or override; C02_from_arrays_3d: zero padding to "
                   "3-D, rejected indices; C02_rebuild_changes_nothing (+prepared_stable, prepare_gives_prepared): "
                   "RawMeshData(mesh) -> instantiate returns the same class and containers, attributes equal as total maps "
-                  "over the edges, for any number of rebuilds. Container independence (lists / tuples / numpy rows / append "
+                  "over the edges, for any number of rebuilds; C02_corner_clear_spec / C02_rebuild_after_clear_and_edit / "
+                  "C02_rebuild_after_clears_changes_nothing: clear() (generated from data_container.py) empties both lists "
+                  "of a corner container, and a re-wrapped mesh that was edited arbitrarily and had its corner containers "
+                  "cleared is rebuilt with one (element, owner) record per incidence of the new faces and cells, while "
+                  "clears alone change nothing. Container independence (lists / tuples / numpy rows / append "
                   "/ from_arrays) has no counterpart in the model and is only tested: kernel-checked correspondence batches "
                   "compare every route with the one model answer, and the oracle compares the routes with each other "
                   "including a script of later connectivity queries.",
@@ -90,6 +94,27 @@ def obs_term(o):
         zll(g("cells")), zlist(gc("cc", 0)), zlist(gc("cc", 1)), zlist(gc("cf", 0)), zlist(gc("cf", 1)))
 
 
+def edit_term(e):
+    k = e[0]
+    simple = {"clear_fc": "EClearFC", "clear_cc": "EClearCC", "clear_cf": "EClearCF", "clear_edges": "EClearEdges",
+              "clear_faces": "EClearFaces", "clear_cells": "EClearCells", "pop_face": "EPopFace", "pop_cell": "EPopCell"}
+    if k in simple:
+        return simple[k]
+    if k == "add_vertex":
+        return "(EAddVertex %s)" % zlist(e[1])
+    if k == "add_edge":
+        return "(EAddEdge (%s, %s))" % (zlit(e[1][0]), zlit(e[1][1]))
+    if k == "add_face":
+        return "(EAddFace %s)" % zlist(e[1])
+    if k == "add_cell":
+        return "(EAddCell %s)" % zlist(e[1])
+    if k == "set_face":
+        return "(ESetFace %s %s)" % (zlit(e[1]), zlist(e[2]))
+    if k == "set_cell":
+        return "(ESetCell %s %s)" % (zlit(e[1]), zlist(e[2]))
+    raise ValueError(e)
+
+
 def case_term(case, route, stages):
     cfg = "(%s, %s)" % (coq_bool(case["cfg"][0]), coq_bool(case["cfg"][1]))
     if route == "from_arrays":
@@ -102,7 +127,10 @@ def case_term(case, route, stages):
             zll(case["verts"]), edges_term(case["edges"]), coq_list([attr_term(a) for a in case["eattrs"]]),
             zll(case["faces"]), zll(case["cells"]))
         inp = "(IRaw %s %s)" % (dim, raw)
-    return "(%s, %s, %s)" % (cfg, inp, coq_list([obs_term(o) for o in stages]))
+    edits = [[]] + list(case.get("edits") or [])
+    edits += [[]] * (len(stages) - len(edits))
+    return "(%s, %s, %s)" % (cfg, inp, coq_list(["(%s, %s)" % (coq_list([edit_term(e) for e in es]), obs_term(o))
+                                                   for es, o in zip(edits, stages)]))
 
 
 # ---------------------------------------------------------------------- running the implementation
@@ -144,6 +172,21 @@ def shrink(case, key):
     changed = True
     while changed and budget > 0:
         changed = False
+        for k in range(len(cur.get("edits") or [])):
+            i = 0
+            while i < len(cur["edits"][k]) and budget > 0:
+                grp = cur["edits"][k]
+                structural = [e for e in grp if e[0] not in O.CLEARS]
+                if grp[i][0] in O.CLEARS and structural:
+                    i += 1   # keep the editors' discipline: containers are cleared whenever the data is edited
+                    continue
+                c = json.loads(json.dumps(cur))
+                del c["edits"][k][i]
+                budget -= 1
+                if attempt(c):
+                    changed = True
+                else:
+                    i += 1
         for fld in ("script", "eattrs", "edges", "faces", "cells"):
             i = 0
             while i < len(cur[fld]) and budget > 0:
@@ -170,6 +213,7 @@ def shrink(case, key):
         if cur["rewraps"] > 0 and budget > 0:
             c = json.loads(json.dumps(cur))
             c["rewraps"] -= 1
+            c["edits"] = (c.get("edits") or [])[:c["rewraps"]]
             budget -= 1
             if attempt(c):
                 changed = True
@@ -185,7 +229,9 @@ def run(ctx):
                 "(self-loops, out-of-range, negative and duplicate declared edges, sparse/dense edge attributes with or "
                 "without a custom default, a caller attribute named hard_edges, both completion switches on/off, dim "
                 "override); every case is built through list / tuple / numpy rows (and append, from_arrays where "
-                "applicable) and re-built 0-2 times from the built mesh. Non-trivial = at least one face or cell and at "
+                "applicable) and re-built 0-2 times from the built mesh, with edits of the re-wrapped data in between (clear() of "
+                "corner containers, appended / reassigned / removed faces and cells with the clears the subdivision editors "
+                "do, mesh.save-like clears of whole containers, an added declared edge). Non-trivial = at least one face or cell and at "
                 "least one declared edge; distinct = canonical JSON of the input")
     ctx.assumptions += ["attribute values are integers / booleans with one value per edge; names enter the model as codes",
                         "cells are tetrahedra (4) or hexahedra (8); declared edges are pairs; raw containers receive 3-D points"]
@@ -213,6 +259,10 @@ def run(ctx):
         for r in c["routes"]:
             ctx.count("route " + r)
         ctx.count("rewraps %d" % c["rewraps"])
+        for es in c.get("edits") or []:
+            ctx.count("rebuild after " + ("no edit" if not es else "clears only" if all(e[0] in O.CLEARS for e in es)
+                                          else "whole-container clear" if any(e[0] in ("clear_edges", "clear_faces", "clear_cells") for e in es)
+                                          else "structural edits + clears" if any(e[0] in O.CLEARS for e in es) else "added edge"))
         ctx.count("declared edges %s" % ("0" if not c["edges"] else "1-4" if len(c["edges"]) < 5 else "5+"))
         for a in c["eattrs"]:
             ctx.count("attr %s%s%s" % ("dense" if a["dense"] else "sparse", " default" if a["default"] is not None else "",
@@ -223,7 +273,7 @@ def run(ctx):
             ctx.count("dim override")
         st0 = next(iter(res.values())).get("stages", [{}])[0] if res else {}
         ctx.count("result " + st0.get("class", "raises " + st0.get("err", "?")))
-        ctx.case_seen([c[k] for k in ("verts", "edges", "faces", "cells", "eattrs", "cfg", "dim", "routes", "rewraps")],
+        ctx.case_seen([c.get(k) for k in ("verts", "edges", "faces", "cells", "eattrs", "cfg", "dim", "routes", "rewraps", "edits")],
                       nontrivial=bool((c["faces"] or c["cells"]) and c["edges"]),
                       sample={"input": {k: c[k] for k in ("verts", "edges", "faces", "cells", "cfg")},
                               "edges_out": st0.get("edges")} if idx % 97 == 5 else None)
@@ -254,7 +304,7 @@ def run(ctx):
         chunk = 1600
         for k in range(0, len(terms), chunk):
             r = ctx.run_cases("prepare%s" % ("" if len(terms) <= chunk else "_%02d" % (k // chunk)), HEADER,
-                              terms[k:k + chunk], "check_case", case_type="(cfg * input * list obs)", shard=200, timeout=900)
+                              terms[k:k + chunk], "check_case", case_type="(cfg * input * list (list edit * obs))", shard=200, timeout=900)
             if r is None:
                 break
             bad += [k + i for i in r]
